@@ -150,7 +150,7 @@ def m_identity(ex, m, argv, guard, st, callee):
 def m_clone(ex, m, argv, guard, st, callee):
     ty = _strip_type_refs(m.group(1))
     base = re.sub(r'<.*$', '', strip_paths(ty))
-    if not (base in PRIMS or re.fullmatch(r'[A-Z]', base) or base in ('Option', 'Box', 'String', 'Vec', 'Result')):
+    if not (base in PRIMS or re.fullmatch(r'[A-Z]', base) or base in ('Option', 'Box', 'String', 'Vec', 'Result', 'EnumSet')):
         d = has_derived(ex, ty, 'Clone')
         if d is False:
             raise Unsupported("manual Clone for %s" % ty)
@@ -824,6 +824,43 @@ def m_vec_is_empty(ex, m, argv, guard, st, callee):
     return guard, v.f['len'] == bv(0, 64)
 
 
+# ---- enumset::EnumSet<T> as a bit set (abstract type 'EnumSet' must be registered with its width) ----
+def _enum_bit(ex, v, w):
+    if not isinstance(v, EnumV):
+        raise Unsupported("EnumSet element is %s" % type(v).__name__)
+    return bv(1, w) << z3.Extract(w - 1, 0, v.discr)
+
+
+def m_enumset_remove(ex, m, argv, guard, st, callee):
+    ref, val = argv
+    if not isinstance(ref, PlaceRef):
+        raise Unsupported("EnumSet::%s through %s" % (m.group(1), type(ref).__name__))
+    cur = ex.read_ref(st, ref)
+    w = cur.size()
+    bit = _enum_bit(ex, val, w)
+    had = (cur & bit) != bv(0, w)
+    if m.group(1) == 'remove':
+        ex.write_cell(st, ref.cell, ref.path, cur & ~bit)
+        return guard, had
+    ex.write_cell(st, ref.cell, ref.path, cur | bit)
+    return guard, znot(had)
+
+
+def m_enumset_contains(ex, m, argv, guard, st, callee):
+    cur = deref_any(ex, st, argv[0])
+    w = cur.size()
+    return guard, (cur & _enum_bit(ex, argv[1], w)) != bv(0, w)
+
+
+def m_enumset_is_empty(ex, m, argv, guard, st, callee):
+    cur = deref_any(ex, st, argv[0])
+    return guard, cur == bv(0, cur.size())
+
+
+def m_identity_iter(ex, m, argv, guard, st, callee):
+    return guard, argv[0]
+
+
 def m_maybeuninit_write(ex, m, argv, guard, st, callee):
     ref = argv[0]
     if not isinstance(ref, PlaceRef):
@@ -843,6 +880,10 @@ def register(ex):
     _EX[0] = ex
     A = ex.add_model
     A(r'^(?:std::vec::)?Vec::<.*>::(len|capacity)$', m_vec_len, 'Vec::len/capacity (fixed-slot model)')
+    A(r'^(?:enumset::)?EnumSet::<.*>::(remove|insert)$', m_enumset_remove, 'EnumSet::remove/insert (bit set)')
+    A(r'^(?:enumset::)?EnumSet::<.*>::contains$', m_enumset_contains, 'EnumSet::contains (bit set)')
+    A(r'^(?:enumset::)?EnumSet::<.*>::is_empty$', m_enumset_is_empty, 'EnumSet::is_empty (bit set)')
+    A(r'^<(?:std::slice::)?Iter<.*> as (?:std::iter::)?IntoIterator>::into_iter$', m_identity_iter, 'IntoIterator for an iterator (identity)')
     A(r'^<(?:std::vec::)?Vec<.*> as (?:std::ops::)?Deref>::deref$', m_vec_deref, 'Vec::deref (slice over the fixed-slot model)')
     A(r'^(?:std::vec::)?Vec::<.*>::as_slice$', m_vec_deref, 'Vec::as_slice')
     A(r'^(?:std::vec::)?Vec::<.*>::is_empty$', m_vec_is_empty, 'Vec::is_empty')
@@ -885,7 +926,7 @@ def register(ex):
     A(r'^core::slice::<impl \[.*\]>::iter$', m_slice_iter, 'slice::iter')
     A(r'^<.*as (?:std::iter::)?Iterator>::(copied|enumerate|peekable)(?:::<.*>)?$', m_iter_adapt, 'Iterator::copied/enumerate/peekable over a slice')
     A(r'^<(?:std::iter::)?Peekable<.*Iter<.*u8>.*> as (?:std::iter::)?Iterator>::next$', m_iter_next, 'Peekable<..slice::Iter<u8>>::next')
-    A(r'^<(?:std::slice::)?Iter<.*u8> as (?:std::iter::)?Iterator>::next$', m_iter_next, 'slice::Iter<u8>::next')
+    A(r'^<(?:std::slice::)?Iter<.*> as (?:std::iter::)?Iterator>::next$', m_iter_next, 'slice::Iter<T>::next')
     A(r'^(?:std::iter::)?Peekable::<.*Iter<.*u8>.*>::peek$', m_iter_peek, 'Peekable::peek')
     A(r'^(?:std::iter::)?Peekable::<.*Iter<.*u8>.*>::next_if::<.*>$', m_iter_next_if, 'Peekable::next_if')
     A(r'^<(?:std::slice::)?Iter<.*> as (?:std::iter::)?Iterator>::any::<\{closure@.*$', m_iter_any, 'slice::Iter::any with a pure closure')
